@@ -204,6 +204,6 @@ func gen(r *rand.Rand, tier string, n int) []any {
 }
 
 func main() {
-	common.Main(common.Prop{ID: "C36", Facts: facts, Gen: gen, Run: run, QuickN: 110, ThoroughN: 800,
+	common.Main(common.Prop{ID: "C36", Facts: facts, Gen: gen, Run: run, QuickN: 110, ThoroughN: 400,
 		Preamble: "From Verif Require Import Lib.Downsample_Core.\nOpen Scope Z_scope.\n"})
 }
